@@ -59,6 +59,7 @@ pub struct Case<'a> {
 
 impl<'a> Case<'a> {
     fn new(tape: &'a [u8], open: &'a HashSet<String>, strict: bool, tier: Tier, want_sample: bool, index: u64) -> Self {
+        watch_case(tape, index);
         Case {
             t: Tape::new(tape),
             strict,
@@ -276,14 +277,103 @@ pub fn install_panic_hook() {
     }));
 }
 
+// ---------------------------------------------------------------------------------------------------------------
+// Watchdog: a case that does not come back (a decoder spinning on an input, a deadlocked future) must not hang the
+// check.  Every worker publishes the case it is running; a monitor thread ends the process with exit code 2
+// (inconclusive - a time budget is never a violation) and leaves a replay file for the stuck case.
+
+struct Slot {
+    /// milliseconds since process start at which the current case began; 0 = idle
+    started_ms: AtomicU64,
+    info: Mutex<(Vec<u8>, u64)>,
+}
+
+static SLOTS: Mutex<Vec<std::sync::Arc<Slot>>> = Mutex::new(Vec::new());
+static WATCH_PHASE: Mutex<String> = Mutex::new(String::new());
+static WATCH_ID: Mutex<String> = Mutex::new(String::new());
+
+fn process_start() -> Instant {
+    static T0: std::sync::OnceLock<Instant> = std::sync::OnceLock::new();
+    *T0.get_or_init(Instant::now)
+}
+
+thread_local! {
+    static MY_SLOT: std::sync::Arc<Slot> = {
+        let s = std::sync::Arc::new(Slot { started_ms: AtomicU64::new(0), info: Mutex::new((Vec::new(), 0)) });
+        SLOTS.lock().unwrap().push(s.clone());
+        s
+    };
+}
+
+fn watch_case(tape: &[u8], index: u64) {
+    MY_SLOT.with(|s| {
+        let mut g = s.info.lock().unwrap();
+        g.0.clear();
+        g.0.extend_from_slice(tape);
+        g.1 = index;
+    });
+}
+
+fn watch_phase(phase: &str) {
+    let mut g = WATCH_PHASE.lock().unwrap();
+    g.clear();
+    g.push_str(phase);
+}
+
+fn start_watchdog(id: &str) {
+    *WATCH_ID.lock().unwrap() = id.to_owned();
+    static ONCE: std::sync::Once = std::sync::Once::new();
+    ONCE.call_once(|| {
+        let limit_ms: u64 = std::env::var("VERIF_CASE_TIMEOUT").ok().and_then(|s| s.parse::<u64>().ok()).unwrap_or(180) * 1000;
+        let _ = process_start();
+        std::thread::spawn(move || loop {
+            std::thread::sleep(std::time::Duration::from_millis(500));
+            let now = process_start().elapsed().as_millis() as u64;
+            let slots: Vec<std::sync::Arc<Slot>> = SLOTS.lock().unwrap().clone();
+            for s in slots {
+                let st = s.started_ms.load(Ordering::Relaxed);
+                if st != 0 && now.saturating_sub(st) > limit_ms {
+                    let (tape, index) = s.info.lock().map(|g| g.clone()).unwrap_or_default();
+                    let phase = WATCH_PHASE.lock().map(|g| g.clone()).unwrap_or_default();
+                    let id = WATCH_ID.lock().map(|g| g.clone()).unwrap_or_default();
+                    let mut h = std::collections::hash_map::DefaultHasher::new();
+                    (&tape, index, &phase).hash(&mut h);
+                    let path = format!("{VERIF_DIR}/replays/{id}-watchdog-{:08x}.json", h.finish() as u32);
+                    let kind = if tape.is_empty() { "index" } else { "tape" };
+                    let body = json!({"property": id, "kind": kind, "phase": phase, "tape": hex::encode(&tape), "index": index, "signature": "watchdog", "message": format!("a case of phase {phase} did not return within {} s", limit_ms / 1000)});
+                    let _ = std::fs::create_dir_all(format!("{VERIF_DIR}/replays"));
+                    let _ = std::fs::write(&path, serde_json::to_string_pretty(&body).unwrap_or_default());
+                    // C13 ("decoding arbitrary bytes always terminates") and C04 ("every request gets a response") state
+                    // termination themselves: there the deadline - four orders of magnitude above a normal case - is the
+                    // oracle of that clause.  Everywhere else a case that does not return is inconclusive.
+                    if id == "C13" || id == "C04" {
+                        println!("VIOLATION property={id} replay={path} signature=non-termination :: a case of phase {phase} did not return within {} s (normal cases take milliseconds)", limit_ms / 1000);
+                        std::process::exit(1);
+                    }
+                    println!("HARNESS-ERROR: watchdog: a case of phase {phase} has been running for more than {} s (possible non-termination of the code under test); inconclusive. replay={path}", limit_ms / 1000);
+                    std::process::exit(2);
+                }
+            }
+        });
+    });
+}
+
 fn run_guarded(f: impl FnOnce() -> CaseResult) -> CaseResult {
+    MY_SLOT.with(|s| s.started_ms.store((process_start().elapsed().as_millis() as u64).max(1), Ordering::Relaxed));
+    let r = run_guarded_inner(f);
+    MY_SLOT.with(|s| s.started_ms.store(0, Ordering::Relaxed));
+    r
+}
+
+fn run_guarded_inner(f: impl FnOnce() -> CaseResult) -> CaseResult {
     match std::panic::catch_unwind(AssertUnwindSafe(f)) {
         Ok(r) => r,
         Err(_) => {
             let msg = LAST_PANIC.with(|p| p.borrow_mut().take()).unwrap_or_default();
             // signature: file name of the panic location (stable under small edits)
             let file = msg.split(':').next().unwrap_or("").rsplit('/').next().unwrap_or("").to_owned();
-            let in_harness = msg.contains("/verif/harness/");
+            // (locations inside the harness crate are relative paths, everything else - /repo, the registry - is absolute)
+            let in_harness = msg.contains("/verif/harness/") || msg.starts_with("src/");
             let sig = if in_harness { format!("harness-panic:{file}") } else { format!("panic:{file}") };
             Err(Stop::Fail { sig, msg: format!("panic: {msg}") })
         }
@@ -328,6 +418,7 @@ fn sanitize(s: &str) -> String {
 
 impl Runner {
     pub fn new(id: &str, tier: Tier, seed: u64) -> Self {
+        start_watchdog(id);
         let known = load_known(id);
         let open = known.iter().filter(|e| e.is_open()).map(|e| e.signature.clone()).collect();
         let workers = std::env::var("VERIF_WORKERS").ok().and_then(|s| s.parse().ok()).unwrap_or(16);
@@ -462,6 +553,7 @@ impl Runner {
         if self.skip_phase(phase) {
             return;
         }
+        watch_phase(phase);
         match self.replay_wants(phase) {
             Some(None) => return,
             Some(Some(ReplaySpec::Tape { tape, .. })) => {
@@ -576,6 +668,7 @@ impl Runner {
         if self.skip_phase(phase) {
             return;
         }
+        watch_phase(phase);
         match self.replay_wants(phase) {
             Some(None) => return,
             Some(Some(ReplaySpec::Index { index, .. })) => {
@@ -646,6 +739,7 @@ impl Runner {
 
     /// An explicit, hand-written case (known-finding input or regression input), run strictly.
     pub fn probe(&mut self, name: &str, f: impl Fn(&mut Case<'_>) -> CaseResult + Sync) {
+        watch_phase(name);
         match self.replay_wants(name) {
             Some(None) => return,
             Some(Some(_)) => {
